@@ -90,6 +90,10 @@ Ltac px_step rtac on_oracle on_other :=
             | false => change (glob_get P h x) with (VGlobal x)
             | true => on_other hd
             end
+        | val_is ?a ?b =>
+            first [ is_var a;
+                    lazymatch b with VNone => rewrite (val_is_none_r a); destruct (is_none a) eqn:? end
+                  | let r := eval vm_compute in (val_is a b) in change (val_is a b) with r ]
         | nr ?O ?n ?g ?a ?kw ?h => rewrite (nr_eq O n g a kw h)
         | snd (?O ?n ?g ?a ?kw ?h) => on_oracle O n g a kw h
         | fst (?O ?n ?g ?a ?kw ?h) => on_oracle O n g a kw h
@@ -109,7 +113,7 @@ Ltac px_cbv extra :=
   cbv beta iota zeta delta
     [eval evals evalkw ocall run_beh call_value call_method call_fun assign assigns
      truthy_k nth_k subscript_k contains_k builtin_method_k iter_items dispatch strip_exc
-     truthy val_is val_eqb aget aset const_val bind_params bind_params_aux fextra fparams fbody
+     truthy val_eqb aget aset const_val bind_params bind_params_aux fextra fparams fbody
      forallb existsb option_map String.eqb Ascii.eqb Bool.eqb strmem
      before_dot append
      fst snd List.length Nat.eqb exn module_dict negb andb orb hset nr
